@@ -248,6 +248,9 @@ def retunes(c):
 def oracle(c):
     if c["kind"] == "run":
         return oracle_run(c)
+    if c["kind"] == "eng":
+        bad = [(i, ki) for i, row in enumerate(c["obs"]) for ki, (kk, o) in enumerate(zip(c["kerns"], row)) if kk[0] in ("nuts", "hmc") and o is None]
+        return f"engine run: inverse mass matrix not finite after epoch/kernel {bad[0]}" if bad else None
     if not c.get("bj_same", True):
         return ("blackjax's metric pairs the entries of the inverse mass vector with the momentum components in an order "
                 "different from ravel_pytree(kernel.position)")
@@ -310,7 +313,8 @@ def oracle_run(c):
                 i, a, b = mm
                 return (f"engine run, chain {c['chain']}, kernel {c['kernel']} (keys {[k for k, _ in c['keys']]}): after slow epoch "
                         f"#{n} entry {i} of the inverse mass matrix is {b}, the regularised sample (co)variance of flat "
-                        f"coordinate {i} over that epoch's chain is {a}")
+                        f"coordinate {i} over that epoch's chain is {a}  [kernel sequence {[k['cls'] for k in c['cfg']['kernels']]}, "
+                        f"epochs {c['cfg']['epochs']}]")
         else:
             if mat_mismatch(c["diag"], prev, obs):
                 return f"inverse mass matrix changed after non-slow adaptation epoch {n}"
@@ -499,7 +503,7 @@ def generate(ctx):
             import traceback
             common.log(traceback.format_exc()[-1500:])
             cases.append({"kind": "run", "cfg": cfg, "crash": f"{type(ex).__name__}: {str(ex)[:400]}", "chain": 0, "kernel": 0,
-                          "cls": cfg["kernels"][0]["cls"], "keys": cfg["kernels"][0]["keys"], "diag": cfg["kernels"][0]["diag"],
+                          "cls": "?", "keys": [], "diag": True,
                           "coords": [], "bj_same": True, "init": None, "epochs": [], "obs": []})
     for c in cases:
         if c["kind"] == "direct":
@@ -514,11 +518,19 @@ def generate(ctx):
                 ctx.hist("has matrix/tensor-shaped key")
             if "ref" in c:
                 ctx.hist("twin:" + c["ref"]["why"].split(" ")[1])
-        else:
+        elif c["kind"] == "run":
             ctx.hist("engine-run kernel=" + c["cls"] + (",diag" if c["diag"] else ",dense"))
             ctx.hist("engine-run slow epochs=" + str(sum(1 for s, _ in c["epochs"] if s)))
-    distinct = {json.dumps([c["keys"], c["diag"], c.get("level"), c.get("etype"), c.get("hist", c.get("obs"))], default=str) for c in cases}
-    nontrivial = sum(1 for c in cases if c["kind"] == "run" or (retunes(c) and c["valid"]))
+            kinds = [k["cls"] for k in c["cfg"]["kernels"]]
+            if any(x in ("rw", "gibbs") for x in kinds[:c["kernel"]]):
+                ctx.hist("engine-run: kernel without history-based tuning listed before this NUTS/HMC kernel")
+            sl = [tuple(e) for e in c["cfg"]["epochs"] if e[0] == "slow"]
+            if len(set(sl)) < len(sl):
+                ctx.hist("engine-run: slow epochs with identical configs")
+        else:
+            ctx.hist("engine-model case (kernel sequence x schedule, one chain)")
+    distinct = {json.dumps([c.get("keys", c.get("kerns")), c.get("diag"), c.get("level"), c.get("etype"), c.get("hist", c.get("obs"))], default=str) for c in cases}
+    nontrivial = sum(1 for c in cases if c["kind"] != "direct" or (retunes(c) and c["valid"]))
     ctx.count(len(cases), min(len(distinct), nontrivial))
     ctx.cov["rule"] = ("distinct (listed keys+shapes, mode, level, epoch type, history) tuples on which a matrix was actually tuned "
                        "(slow epoch with a history, or function level) plus one per (engine run, chain, kernel)")
@@ -539,18 +551,23 @@ def sample_of(c):
     if c["kind"] == "direct":
         return {"keys": c["keys"], "level": c["level"], "diag": c["diag"], "etype": c["etype"], "T": c["T"], "coords": c["coords"],
                 "new": str([float(fr(v)) for v in c["new"]] if c["valid"] and c["diag"] else c["valid"])}
-    return {"engine_run": c["cfg"]["kernels"], "epochs": c["cfg"]["epochs"], "chain": c["chain"], "kernel": c["kernel"], "coords": c["coords"]}
+    return {"engine_run": c["cfg"]["kernels"], "epochs": c["cfg"]["epochs"], "chain": c["chain"], "kernel": c.get("kernel"), "coords": c.get("coords")}
 
 
 # ----------------------------------------------------------------------------------------------
 # engine runs
 # ----------------------------------------------------------------------------------------------
 def run_configs(rnd, quick):
+    # forced strata of the engine run (always, also in quick): a kernel without history-based tuning (RW) listed BEFORE the
+    # NUTS kernel and another one (Gibbs) in the MIDDLE, before the HMC kernel; two consecutive slow epochs with IDENTICAL
+    # configs (and, the chain having moved, different histories); two fast epochs with identical configs
     cfgs = [{
         "seed": 11, "chains": 2,
-        "kernels": [{"cls": "nuts", "keys": [["zeta", []], ["alpha", [2]]], "diag": True},
+        "kernels": [{"cls": "rw", "keys": [["r", []]]},
+                    {"cls": "nuts", "keys": [["zeta", []], ["alpha", [2]]], "diag": True},
+                    {"cls": "gibbs", "keys": [["g", []]]},
                     {"cls": "hmc", "keys": [["b", [2]], ["B", []]], "diag": False}],
-        "epochs": [["fast", 8], ["slow", 16], ["slow", 24], ["fast", 8], ["posterior", 8]],
+        "epochs": [["fast", 8], ["slow", 16], ["slow", 16], ["fast", 8], ["posterior", 8]],
     }]
     if not quick:
         cfgs.append({
@@ -565,6 +582,14 @@ def run_configs(rnd, quick):
                         {"cls": "nuts", "keys": [["tau2", []]], "diag": True},
                         {"cls": "hmc", "keys": [["beta", [3]], ["Beta", []]], "diag": True}],
             "epochs": [["fast", 10], ["slow", 20], ["burnin", 10], ["posterior", 10]],
+        })
+        cfgs.append({
+            "seed": 14, "chains": 2,
+            "kernels": [{"cls": "hmc", "keys": [["mu", [2]]], "diag": True},
+                        {"cls": "gibbs", "keys": [["tau2", []]]},
+                        {"cls": "rw", "keys": [["r", []]]},
+                        {"cls": "nuts", "keys": [["x9", []], ["x10", []]], "diag": False}],
+            "epochs": [["slow", 12], ["slow", 12], ["fast", 12], ["slow", 12], ["posterior", 12]],
         })
         for i in range(2):
             pool = rnd.sample(NAMES, 5)
@@ -597,8 +622,17 @@ def observe_run(cfg):
     b.set_initial_values(init)
     kerns = []
     for k in cfg["kernels"]:
-        K = gs.NUTSKernel if k["cls"] == "nuts" else gs.HMCKernel
-        kern = K([nm for nm, _ in k["keys"]], mm_diag=k["diag"])
+        names = [nm for nm, _ in k["keys"]]
+        if k["cls"] == "rw":
+            kern = gs.RWKernel(names)
+        elif k["cls"] == "gibbs":
+            def tf(prng_key, model_state, names=names):
+                ks_ = jax.random.split(prng_key, len(names))
+                return {nm: scj[nm] * jax.random.normal(ks_[j], jnp.shape(model_state[nm]), dtype=jnp.float64) for j, nm in enumerate(names)}
+            kern = gs.GibbsKernel(names, tf)
+        else:
+            K = gs.NUTSKernel if k["cls"] == "nuts" else gs.HMCKernel
+            kern = K(names, mm_diag=k["diag"])
         kerns.append(kern)
         b.add_kernel(kern)
     eps = [EC(E.INITIAL_VALUES, 1, 1, None)] + [EC(E(ETYPES[t]), d, 1, None) for t, d in cfg["epochs"]]
@@ -610,29 +644,41 @@ def observe_run(cfg):
     res = eng.get_results()
     pc, kc = res.positions, res.kernel_states.unwrap()
     out = []
+    ismm = [k["cls"] in ("nuts", "hmc") for k in cfg["kernels"]]
     adapt = [i for i, (t, _) in enumerate(cfg["epochs"]) if t in ("fast", "slow")]
+    nep = len(cfg["epochs"])
+
+    def chain_of(i, ch):
+        chain = pc.combine([i + 1]).unwrap()
+        h = []
+        for nm in chain:
+            a = np.asarray(chain[nm])[ch]
+            h.append([nm, list(a.shape[1:]), finite_fracs(a.reshape(a.shape[0], -1))])
+        return h
+
+    def imm_at(i, ki, ch):
+        """matrix of kernel ki stored for the first iteration of engine epoch i (0 = INITIAL_VALUES)"""
+        return finite_fracs(np.asarray(kc.combine([i]).unwrap()[ki].inverse_mass_matrix)[ch, 0])
+
+    hists = {(i, ch): chain_of(i, ch) for i, (t, _) in enumerate(cfg["epochs"]) if t == "slow" for ch in range(cfg["chains"])}
     for ki, k in enumerate(cfg["kernels"]):
+        if not ismm[ki]:
+            continue
         coords, same = observe_coords(k["keys"])
-        n = len(coords)
         for ch in range(cfg["chains"]):
-            first = np.asarray(kc.combine([1]).unwrap()[ki].inverse_mass_matrix)[ch, 0]
             epochs, obs = [], []
             for i in adapt:
                 t, d = cfg["epochs"][i]
-                if t == "slow":
-                    chain = pc.combine([i + 1]).unwrap()
-                    h = []
-                    for nm in chain:
-                        a = np.asarray(chain[nm])[ch]
-                        shape = list(a.shape[1:])
-                        h.append([nm, shape, finite_fracs(a.reshape(a.shape[0], -1))])
-                    epochs.append([True, h])
-                else:
-                    epochs.append([False, None])
-                nxt = np.asarray(kc.combine([i + 2]).unwrap()[ki].inverse_mass_matrix)[ch, 0]
-                obs.append(finite_fracs(nxt))
+                epochs.append([True, hists[(i, ch)]] if t == "slow" else [False, None])
+                obs.append(imm_at(i + 2, ki, ch))
             out.append({"kind": "run", "cfg": cfg, "chain": ch, "kernel": ki, "cls": k["cls"], "keys": k["keys"], "diag": k["diag"],
-                        "coords": coords, "bj_same": same, "init": finite_fracs(first), "epochs": epochs, "obs": obs})
+                        "coords": coords, "bj_same": same, "init": imm_at(1, ki, ch), "epochs": epochs, "obs": obs})
+    # the whole kernel sequence and schedule of one chain, for the engine model (all epochs but the last)
+    for ch in range(cfg["chains"]):
+        kerns_ = [[k["cls"], k["keys"], k.get("diag"), imm_at(1, ki, ch) if ismm[ki] else None] for ki, k in enumerate(cfg["kernels"])]
+        eps_ = [[t, d, hists[(i, ch)] if t == "slow" else []] for i, (t, d) in enumerate(cfg["epochs"][:-1])]
+        obs_ = [[imm_at(i + 2, ki, ch) if ismm[ki] else None for ki in range(len(kerns_))] for i in range(nep - 1)]
+        out.append({"kind": "eng", "cfg": cfg, "chain": ch, "kerns": kerns_, "epochs": eps_, "obs": obs_})
     return out
 
 
@@ -686,6 +732,17 @@ def run_lit(c):
                                  lst(mm_lit(c["diag"], o) for o in c["obs"])]) + ")")
 
 
+ETY = {"fast": "EFast", "slow": "ESlow", "burnin": "EBurnin", "posterior": "EPosterior"}
+
+
+def eng_lit(c):
+    ks = lst(f"(KMM {blit(d)} {keys_lit(keys)}, {mm_lit(d, init)})" if cls in ("nuts", "hmc") else "(KOther, Diag [])"
+             for cls, keys, d, init in c["kerns"])
+    eps = lst(f"(mkE {ETY[t]} {natlit(d)} 1%nat, {hist_lit(h)})" for t, d, h in c["epochs"])
+    obs = lst(lst(mm_lit(kk[2], o) if kk[0] in ("nuts", "hmc") else "(Diag [])" for kk, o in zip(c["kerns"], row)) for row in c["obs"])
+    return f"(mkEng {ks} {eps} {obs})"
+
+
 def emit(ctx, cases):
     shards = []
     d = [i for i, c in enumerate(cases) if c["kind"] == "direct"]
@@ -706,13 +763,22 @@ Lemma shard_ok : forallb (agrees_run Sorted) cases = true.
 Proof. vm_compute. reflexivity. Qed.
 """
         shards.append((ctx.new_shard(txt), idxs))
+    g = [i for i, c in enumerate(cases) if c["kind"] == "eng"]
+    for k in range(0, len(g), 4):
+        idxs = g[k:k + 4]
+        txt = HEADER + f"""
+Definition cases : list ecase := {lst(eng_lit(cases[i]) for i in idxs)}.
+Lemma shard_ok : forallb (agrees_engine Sorted) cases = true.
+Proof. vm_compute. reflexivity. Qed.
+"""
+        shards.append((ctx.new_shard(txt), idxs))
     return shards
 
 
 def diagnose(ctx, path, idxs, cases):
     src = open(path).read()
     txt = src.split("Lemma shard_ok")[0]
-    pred = "agrees_run Sorted" if "list rcase" in src else "agrees Sorted"
+    pred = "agrees_run Sorted" if "list rcase" in src else "agrees_engine Sorted" if "list ecase" in src else "agrees Sorted"
     txt += f"Eval vm_compute in (failing ({pred}) cases).\n"
     ok, out = ctx.coq_eval(txt)
     return [idxs[j] for j in common.parse_nat_list(out) if j < len(idxs)]
@@ -760,14 +826,14 @@ def replay(rp) -> int:
         print("replay file names no concrete input (broken lemma only):", rp["replay"].get("broken"))
         return 0
     lib()
-    if c["kind"] == "run":
+    if c["kind"] in ("run", "eng"):
         try:
             obs = observe_run(c["cfg"])
         except Exception as ex:
             print("REPLAY FAILS: engine run raised", type(ex).__name__, str(ex)[:300])
             return 1
         for c2 in obs:
-            if c2["chain"] == c["chain"] and c2["kernel"] == c["kernel"]:
+            if c2["kind"] == "run" and c2["chain"] == c["chain"] and c2["kernel"] == c.get("kernel", c2["kernel"]):
                 r = oracle(c2)
                 print(json.dumps(sample_of(c2), default=str))
                 if r:
